@@ -171,7 +171,7 @@ static void fill_operands(Rng &r, Op &o, unsigned bias, bool streams) {
 static bool corruptible(uint16_t k) {
     switch (k) {
     case S_CONSTRUCT: case S_FROM: case S_ASSIGN: case S_SET: case S_APPEND: case S_APPEND_CH: case S_PLUS: case S_PLUS_CH:
-    case S_REPLACE: case S_SPLIT: case S_FORMAT: case S_STFMT: case S_ISTREAM: case S_DECODE: case SS_SHL_TEXT: case SS_APPEND: case B_NEW_PTRLEN: case S_PATH:
+    case S_REPLACE: case S_SPLIT: case S_FORMAT: case S_STFMT: case S_ISTREAM: case S_DECODE: case SS_SHL_TEXT: case SS_APPEND: case B_NEW_PTRLEN: case S_PATH: case S_SINKS:
         return true;
     default: return false;
     }
